@@ -161,7 +161,7 @@ func cmdCheck(argv []string) int {
 		return 2
 	}
 	order := []string{"z3-new", "cvc5"}
-	timeout := 20
+	timeout := 25
 	if tier == "thorough" {
 		timeout = 60
 		order = []string{"z3-new", "cvc5", "z3"}
@@ -212,16 +212,16 @@ func cmdCheck(argv []string) int {
 				retry = append(retry, o)
 			}
 		}
-		if len(retry) > 6 {
-			// many obligations undecided at once (typically one broken function): retrying all of them at
-			// large limits would take very long; the first few decide the verdict
-			retry = retry[:6]
+		if len(retry) > 40 {
+			// very many obligations undecided at once (a broken function, not a loaded machine): retrying all
+			// of them at large limits would take very long; the first forty decide the verdict
+			retry = retry[:40]
 		}
 		if len(retry) > 0 {
 			// re-run the harness's engine for these queries at thorough limits: rebuild through runHarness is
 			// avoided; queries are still on disk
 			ropt := opt
-			ropt.timeoutS = timeout * 2
+			ropt.timeoutS = timeout * 3
 			ropt.order = []string{"z3-new", "z3", "cvc5"}
 			resolveFromFiles(retry, ropt)
 		}
